@@ -1,3 +1,3 @@
 #!/bin/sh
 # replays this counterexample against the real build
-cd /tmp/dbg_x && VERIF_SCRIPT=/verif/replays/C10/VHarnessDLEQWallet_f8ad1be2_0/script.json VERIF_RAW_SALT=0 GOFLAGS=-mod=mod GOPROXY=off go test -vet=off -count=1 -overlay /verif/replays/C10/VHarnessDLEQWallet_f8ad1be2_0/overlay.json -run ^TestVerifReplay_VHarnessDLEQWallet$ -v ./cashu/nuts/nut12
+cd /tmp/seedrepo_C10b && VERIF_SCRIPT=/verif/replays/C10/VHarnessDLEQWallet_f8ad1be2_0/script.json VERIF_RAW_SALT=0 GOFLAGS=-mod=mod GOPROXY=off go test -vet=off -count=1 -overlay /verif/replays/C10/VHarnessDLEQWallet_f8ad1be2_0/overlay.json -run ^TestVerifReplay_VHarnessDLEQWallet$ -v ./cashu/nuts/nut12
